@@ -89,7 +89,7 @@ def parseGoErr (s : String) : Option (Option GoErr) :=
   else if s.startsWith "plain:" then (hexArg' (s.drop 6).toString).map fun t => some (.plain t)
   -- an uncoded error that wraps io.EOF / an I/O timeout is an uncoded error
   else if s.startsWith "plaineof:" || s.startsWith "plaintmo:" then (hexArg' (s.drop 9).toString).map fun t => some (.plain t)
-  else if s.startsWith "coded:" || s.startsWith "codedctx:" || s.startsWith "codedwrap:" || s.startsWith "codedeof:" then
+  else if s.startsWith "coded:" || s.startsWith "codedctx:" || s.startsWith "codedwrap:" || s.startsWith "codedeof:" || s.startsWith "codedjoin:" || s.startsWith "codedas:" then
     -- codedctx: the coded error's cause is a context error; codedwrap: the coded error is wrapped
     -- once more (`errors.As` finds it): the model's handler sees the same coded error in all cases
     match ((s.drop ((s.splitOn ":").head!.length + 1)).toString).splitOn "@" with
